@@ -164,6 +164,7 @@ func (g *ExprGen) path(in []*ref.V, n int) *ref.Expr {
 			e = step
 		} else {
 			e = ref.Pipe(e, step)
+			e.Post = g.R.IntN(2) == 0
 		}
 		cur = g.eval(step, cur)
 		if len(cur) == 0 {
@@ -448,9 +449,15 @@ func (g *ExprGen) Gen(in []*ref.V, depth int) *ref.Expr {
 		l := g.Gen(in, depth-1)
 		mid := g.eval(l, in)
 		var rr *ref.Expr
-		if r.IntN(2) == 0 {
+		switch r.IntN(5) {
+		case 0, 1:
 			rr = g.unary(mid, depth-1)
-		} else {
+		case 2:
+			// postfix traversal right after a bracketed expression / function: (e)[0], f(x).a
+			pe := ref.Pipe(l, g.pathStep(first(mid)))
+			pe.Post = true
+			return pe
+		default:
 			rr = g.Gen(mid, depth-1)
 		}
 		return ref.Pipe(l, rr)
